@@ -21,7 +21,7 @@ RULE = ("Stateful generation (Hypothesis RuleBasedStateMachine): a NetSpec rich 
         "interleaved pair gives the same digests on a shared network as on separate ones.  Non-trivial: a history in which one key was "
         "executed >= 2 times with at least one reuse after a different run; distinct by digest of (spec, history).")
 ASSUMPTIONS = ["a tracker / deadlock detector object is created per Simulation, as the documentation does"]
-WALL = {"quick": 50, "thorough": 540}
+WALL = {"quick": 150, "thorough": 540}
 
 ALLOWED = ["schedule", "sched_preempt", "slotted", "capacity", "priorities", "reneging", "batching", "cc_after", "cc_waiting", "discipline",
            "routing_objects", "process_routing", "self_loops", "tracker", "inf", "baulking", "system_capacity", "prio_preempt"]
@@ -185,7 +185,7 @@ def profile():
 
 
 def subchecks(tier):
-    sc = SubCheck("history", execute, strategy=None, n={"quick": 3200, "thorough": 40000}, kind="stateful", is_spec=False,
+    sc = SubCheck("history", execute, strategy=None, n={"quick": 9600, "thorough": 40000}, kind="stateful", is_spec=False,
                   rule="generated histories of fresh / reused / noise / interleaved runs over one spec")
     sc.machine = make_machine
     sc.steps = 10
